@@ -363,6 +363,10 @@ pub const ENTRIES: &[Entry] = &[
     // finishing methods (distances / predecessors / shortest_path / cycles), a second one on the same object
     e!("advance_finish", ALL, Args::XY),
     e!("dijkstra_advance_finish", &[WU], Args::XY),
+    // adversarial (but safe) iterator arguments: clones that share one cursor, size hints that lie, endless
+    // repetition - every traversal constructor, x in range, the "other" id taken from the y class
+    e!("evil_sources", ALL, Args::XY),
+    e!("dijkstra_evil_sources", &[WU], Args::XY),
     e!("prng", &[L], Args::None),
     // generated call sequences: (x, y, cb, t) only encode the sequence's seed
     e!("seq", UNW, Args::XY),
@@ -620,6 +624,47 @@ impl<I: Iterator> Iterator for PanicIter<I> {
         self.n += 1;
         assert!(self.at == 0 || self.n != self.at, "injected panic in user iterator at item {}", self.n);
         self.inner.next()
+    }
+}
+
+/// An iterator whose clones share one cursor (safe code: `Rc<Cell<usize>>`): what a clone yields depends
+/// on how far any other copy has been advanced. A function that validates a clone of its argument and then
+/// consumes the argument sees two different sequences.
+#[derive(Clone)]
+pub struct SharedCursor {
+    items: std::rc::Rc<Vec<usize>>,
+    pos: std::rc::Rc<Cell<usize>>,
+}
+
+impl SharedCursor {
+    pub fn new(items: Vec<usize>) -> Self {
+        Self { items: std::rc::Rc::new(items), pos: std::rc::Rc::new(Cell::new(0)) }
+    }
+}
+
+impl Iterator for SharedCursor {
+    type Item = usize;
+    fn next(&mut self) -> Option<usize> {
+        let i = self.pos.get();
+        self.pos.set(i + 1);
+        self.items.get(i).copied()
+    }
+}
+
+/// An iterator whose `size_hint` claims exactly `claim` items whatever it yields.
+#[derive(Clone)]
+pub struct LyingHint<I> {
+    inner: I,
+    claim: usize,
+}
+
+impl<I: Iterator> Iterator for LyingHint<I> {
+    type Item = I::Item;
+    fn next(&mut self) -> Option<I::Item> {
+        self.inner.next()
+    }
+    fn size_hint(&self) -> (usize, Option<usize>) {
+        (self.claim, Some(self.claim))
     }
 }
 
@@ -1125,6 +1170,32 @@ pub fn body(p: &Prog) -> u64 {
                     + it.predecessors().pred.len())
                 + adv!(DijkstraPred::new(&g, [x, last].into_iter()), |it| it.shortest_path(|_| true).map_or(0, |w| w.len())
                     + it.shortest_path(|v| v == last).map_or(0, |w| w.len()))
+        }),
+        "evil_sources" => on!(p, d, [L, M, X, E, WI, WU], |g| {
+            macro_rules! each_evil {
+                ($T:ident) => {{
+                    let a = catch_unwind(AssertUnwindSafe(|| $T::new(&g, SharedCursor::new(vec![x, y, x]).take(1)).take(64).count())).unwrap_or(0);
+                    let b = catch_unwind(AssertUnwindSafe(|| $T::new(&g, SharedCursor::new(vec![x, x, y]).take(2)).take(64).count())).unwrap_or(0);
+                    let c = catch_unwind(AssertUnwindSafe(|| $T::new(&g, LyingHint { inner: [x, y].into_iter(), claim: 0 }).take(64).count())).unwrap_or(0);
+                    let e = catch_unwind(AssertUnwindSafe(|| $T::new(&g, LyingHint { inner: [x].into_iter(), claim: usize::MAX }).take(64).count())).unwrap_or(0);
+                    let f = catch_unwind(AssertUnwindSafe(|| $T::new(&g, std::iter::repeat(x).take(3 * d.order() + 5)).take(64).count())).unwrap_or(0);
+                    a + b + c + e + f
+                }};
+            }
+            each_evil!(Bfs) + each_evil!(BfsDist) + each_evil!(BfsPred) + each_evil!(Dfs) + each_evil!(DfsDist) + each_evil!(DfsPred)
+        }),
+        "dijkstra_evil_sources" => on!(p, d, [WU], |g| {
+            macro_rules! each_evil {
+                ($T:ident) => {{
+                    let a = catch_unwind(AssertUnwindSafe(|| $T::new(&g, SharedCursor::new(vec![x, y, x]).take(1)).take(64).count())).unwrap_or(0);
+                    let b = catch_unwind(AssertUnwindSafe(|| $T::new(&g, SharedCursor::new(vec![x, x, y]).take(2)).take(64).count())).unwrap_or(0);
+                    let c = catch_unwind(AssertUnwindSafe(|| $T::new(&g, LyingHint { inner: [x, y].into_iter(), claim: 0 }).take(64).count())).unwrap_or(0);
+                    let e = catch_unwind(AssertUnwindSafe(|| $T::new(&g, LyingHint { inner: [x].into_iter(), claim: usize::MAX }).take(64).count())).unwrap_or(0);
+                    let f = catch_unwind(AssertUnwindSafe(|| $T::new(&g, std::iter::repeat(x).take(3 * d.order() + 5)).take(64).count())).unwrap_or(0);
+                    a + b + c + e + f
+                }};
+            }
+            each_evil!(Dijkstra) + each_evil!(DijkstraDist) + each_evil!(DijkstraPred)
         }),
         "std_traits" => on!(p, d, [L, M, X, E, WI, WU], |g| {
             use std::fmt::Write as _;
